@@ -47,6 +47,9 @@ func TestC03(t *testing.T) {
 		rep["mode"] = mode
 		rep["choices"] = choices
 		what := fmt.Sprintf("(%s, call %d/%d fails, persistent=%v, %v) in %s: fault-free=%s, with fault=%s", mode, plan.At, base.Calls, plan.Persistent, plan.Err, sc, memb(base.Res), memb(o.Res))
+		if diverged(o.X, sc.String()) {
+			return
+		}
 		if o.X.Outcome != "ok" {
 			run.Violation("abnormal:"+o.X.Outcome, "execution "+o.X.Outcome+" "+what, rep)
 			return
